@@ -26,11 +26,19 @@ BASE = dict(
                              dict(el='C', q=5, n=1e17, t=800., v=(0, 2e4, 0), gn=(0, 0.1, 0), gt=(0, 0, 0))],
                 atomic_data='A', geometry=('box', 1.0, 1.0, 1.0), geometry_transform='none', integrator_step=0.1,
                 models=[('exc', ('C', 5, (8, 7))), ('rec', ('C', 5, (8, 7))), ('tcx', ('C', 5, (8, 7))), ('brems',), ('trp', 'C', 5)]),
-    beam=dict(parent='mid', transform=('c', ('t', 0, 0, -1.5), ('rx', 3.0)), atomic_data='A', energy=60000., power=1e6,
+    plasma2=dict(transform=('t', 0.0, 0.0, -2.6), b_field=(0.0, 0.3, 1.0),
+                 electrons=dict(n=3e19, t=600., v=(0, 0, 0), gn=(0, 0.1, 0), gt=(0.1, 0, 0)),
+                 composition=[dict(el='D', q=1, n=2.5e19, t=650., v=(0, 1e4, 0), gn=(0, 0.1, 0), gt=(0, 0, 0)),
+                              dict(el='D', q=0, n=3e17, t=8., v=(0, 0, 0), gn=(0, 0, 0), gt=(0, 0, 0)),
+                              dict(el='C', q=6, n=1.5e18, t=620., v=(0, 0, 1e4), gn=(0.1, 0, 0), gt=(0, 0, 0)),
+                              dict(el='C', q=5, n=2e17, t=610., v=(0, 0, 0), gn=(0, 0, 0.1), gt=(0, 0, 0))],
+                 atomic_data='B', geometry=('box', 0.8, 0.8, 0.8), integrator_step=0.1,
+                 models=[('brems',), ('exc', ('C', 5, (8, 7)))]),
+    beam=dict(parent='mid', plasma='p', transform=('c', ('t', 0, 0, -1.5), ('rx', 3.0)), atomic_data='A', energy=60000., power=1e6,
               temperature=10., element='D', sigma=0.05, divergence_x=0.5, divergence_y=0.5, length=3.0,
               attenuator=dict(step=0.05, clamp_to_zero=True, clamp_sigma=4.0), integrator_step=0.05,
               models=[('bcx', ('C', 5, (8, 7))), ('bem', ('D', 0, (3, 2)))]),
-    laser=dict(parent='mid', transform=('c', ('t', 0, 0.2, -1.0), ('ry', 2.0)), importance=1.0, spectrum=('const', 531., 533., 3),
+    laser=dict(parent='mid', plasma='p', transform=('c', ('t', 0, 0.2, -1.0), ('ry', 2.0)), importance=1.0, spectrum=('const', 531., 533., 3),
                profile=('uniform', 1e3, 2.0, 0.05), integrator_step=0.05, models=1))
 
 BARE = copy.deepcopy(BASE)
@@ -142,7 +150,27 @@ def mutators(S):
         lambda L, v: setattr(L.beam, 'element', S.ELEMS[v]), setc(B, 'element'))
     reg('beam.atomic_data', lambda r, c: 'B' if c[B]['atomic_data'] == 'A' else 'A',
         lambda L, v: setattr(L.beam, 'atomic_data', L.data[v]), setc(B, 'atomic_data'))
-    reg('beam.plasma', lambda r, c: None, lambda L, v: setattr(L.beam, 'plasma', L.plasma), lambda cfg, v: None)
+    reg('beam.plasma', lambda r, c: None, lambda L, v: setattr(L.beam, 'plasma', L.beam.plasma), lambda cfg, v: None)
+    # two plasmas in one world: the beam / laser is moved from one to the other, and either plasma is then changed
+    reg('beam.plasma(switch)', lambda r, c: 'q' if c[B].get('plasma', 'p') == 'p' else 'p',
+        lambda L, v: setattr(L.beam, 'plasma', L.plasma2 if v == 'q' else L.plasma), setc(B, 'plasma'))
+    reg('laser.plasma(switch)', lambda r, c: 'q' if c[La].get('plasma', 'p') == 'p' else 'p',
+        lambda L, v: setattr(L.laser, 'plasma', L.plasma2 if v == 'q' else L.plasma), setc(La, 'plasma'))
+    Q = 'plasma2'
+    reg('plasma2.b_field', lambda r, c: _other(r, [(0, 0.3, 1.0), (0.5, 0, 1.0), (0, 2.0, 0.5)], tuple(c[Q]['b_field'])),
+        lambda L, v: setattr(L.plasma2, 'b_field', Vector3D(*v)), setc(Q, 'b_field'))
+    reg('plasma2.electron_distribution',
+        lambda r, c: dict(c[Q]['electrons'], n=_scale(r, c[Q]['electrons']['n'], 1e19, 1e20), t=_scale(r, c[Q]['electrons']['t'], 200., 4000.)),
+        lambda L, v: setattr(L.plasma2, 'electron_distribution', S.distribution(v, S.ELECTRON_REST_MASS)), setc(Q, 'electrons'))
+    reg('plasma2.composition', lambda r, c: _other(r, COMPS, c[Q]['composition']),
+        lambda L, v: setattr(L.plasma2, 'composition', S.species_list(v)), setc(Q, 'composition'))
+    reg('plasma2.composition.add', lambda r, c: copy.deepcopy(r.choice(EXTRA_SPECIES)),
+        lambda L, v: L.plasma2.composition.add(S.species_list([v])[0]),
+        lambda cfg, v: cfg[Q].__setitem__('composition', [s for s in cfg[Q]['composition'] if (s['el'], s['q']) != (v['el'], v['q'])] + [v]))
+    reg('plasma2.atomic_data', lambda r, c: 'B' if c[Q]['atomic_data'] == 'A' else 'A',
+        lambda L, v: setattr(L.plasma2, 'atomic_data', L.data[v]), setc(Q, 'atomic_data'))
+    reg('plasma2.transform', lambda r, c: _other(r, [('t', 0.0, 0.0, -2.6), ('t', 0.05, 0.0, -2.7), ('c', ('t', 0.0, 0.0, -2.6), ('rz', 15.0))], c[Q]['transform']),
+        lambda L, v: setattr(L.plasma2, 'transform', S.mat(v)), setc(Q, 'transform'))
     reg('beam.attenuator', lambda r, c: dict(step=_other(r, [0.05, 0.03, 0.11], c[B]['attenuator']['step']),
                                              clamp_to_zero=r.random() < 0.7, clamp_sigma=r.choice([3.0, 4.0, 5.0])),
         lambda L, v: setattr(L.beam, 'attenuator', S.attenuator(v)), setc(B, 'attenuator'))
@@ -238,7 +266,7 @@ def mutators(S):
     reg('laser.laser_spectrum(same-object)', lambda r, c: None, lambda L, v: setattr(L.laser, 'laser_spectrum', L.laser.laser_spectrum), lambda cfg, v: None)
     reg('beam.attenuator(same-object)', lambda r, c: None, lambda L, v: setattr(L.beam, 'attenuator', L.beam.attenuator), lambda cfg, v: None)
     reg('plasma.atomic_data(same-object)', lambda r, c: None, lambda L, v: setattr(L.plasma, 'atomic_data', L.plasma.atomic_data), lambda cfg, v: None)
-    reg('laser.plasma', lambda r, c: None, lambda L, v: setattr(L.laser, 'plasma', L.plasma), lambda cfg, v: None)
+    reg('laser.plasma', lambda r, c: None, lambda L, v: setattr(L.laser, 'plasma', L.laser.plasma), lambda cfg, v: None)
     reg('laser.models', lambda r, c: _other(r, [1, 2], c[La]['models']),
         lambda L, v: setattr(L.laser, 'models', [S.SeldenMatobaThomsonSpectrum() for _ in range(v)]), setc(La, 'models'))
     reg('laser.integrator', lambda r, c: _other(r, [0.05, 0.04, 0.08], c[La]['integrator_step']),
@@ -438,7 +466,7 @@ PARAM_NODE = {
     'beam.energy': ['Beam.energy.set'], 'beam.power': ['Beam.power.set'], 'beam.temperature': ['Beam.temperature.set'],
     'beam.sigma': ['Beam.sigma.set'], 'beam.length': ['Beam.length.set'], 'beam.divergence_x': ['Beam.divergence_x.set'],
     'beam.divergence_y': ['Beam.divergence_y.set'], 'beam.element': ['Beam.element.set'],
-    'beam.atomic_data': ['Beam.atomic_data.set'], 'beam.plasma': ['Beam.plasma.set'], 'beam.attenuator': ['Beam.attenuator.set'],
+    'beam.atomic_data': ['Beam.atomic_data.set'], 'beam.plasma': ['Beam.plasma.set'], 'beam.plasma(switch)': ['Beam.plasma.set'], 'laser.plasma(switch)': ['Laser.plasma.set'], 'beam.attenuator': ['Beam.attenuator.set'],
     'beam.attenuator.step': ['SingleRayAttenuator.step.set'], 'beam.attenuator.clamp_sigma': ['SingleRayAttenuator.clamp_sigma.set'],
     'beam.models': ['Beam.models.set'], 'beam.models(then-mutate-caller-list)': ['Beam.models.set'],
     'plasma.models(then-mutate-caller-list)': ['Plasma.models.set'], 'plasma.composition(then-mutate-caller-list)': ['Plasma.composition.set'], 'beam.models.add': ['beam.ModelManager.add'], 'beam.integrator': ['Beam.integrator.set'],
